@@ -55,6 +55,9 @@ type Cell struct {
 	IfaceType reflect.Type
 	New       func() any
 	Flags     Flags
+	// Unexported maps the names of unexported methods and accessors to method
+	// expressions ((*Mock).name), supplied by the registration file
+	Unexported map[string]any
 
 	methods    []*methodInfo
 	staticFs   []Finding
@@ -128,6 +131,13 @@ func (c *Cell) staticMethodSet() []Finding {
 	}
 	want := map[string]string{}
 	for _, m := range c.methods {
+		if !isExported(m.Name) {
+			// reflection does not list them; their reset helper is exported all the same
+			if c.Flags.WithResets {
+				want["Reset"+m.Name+"Calls"] = "reset"
+			}
+			continue
+		}
 		want[m.Name] = "method"
 		want[m.Name+"Calls"] = "accessor"
 		if c.Flags.WithResets {
@@ -167,6 +177,8 @@ func (c *Cell) staticMethodSet() []Finding {
 	}
 	return fs
 }
+
+func isExported(name string) bool { return name != "" && name[0] >= 'A' && name[0] <= 'Z' }
 
 func propOfStatic(kind string) string {
 	if kind == "reset" {
